@@ -6,7 +6,7 @@ O1  the real ShareSet.exp / ShareSet.log2 tables (list subclass whose symbolic i
     multiplication modulo x^8+x^4+x^3+x+1 for symbolic a, b; exp/log2 inverse.
 O2  per-constant lemma on the real tables (for every L in 0..254, all y: `exp[(log2[y] + L) % 255] if y > 0 else 0` equals
     GF(2^8) multiplication of y by exp[L]); with it the real split_secret / interpolate / recover_secret run on symbolic
-    secrets and random bytes (all lanes symbolic) and z3 decides, lane by lane, that the shares are the evaluations of the
+    secrets and random bytes (all byte lanes symbolic at once) and z3 decides that the shares are the evaluations of the
     SLIP39 polynomial (secret at 255, digest share at 254, random shares at 0..k-3) and that every subset of >= k shares
     gives the secret back and passes the digest check.
 O3  ShareSet.__init__ / recover with symbolic header fields: what is accepted is a consistent set of enough distinct shares.
@@ -18,18 +18,40 @@ O6  generate_shares -> recover_mnemonic wiring with the BIP39 codec and the chec
 Replays use the native buidl package, real hashlib / hmac.
 """
 import ast
-import hashlib as _hashlib
 import hmac as _hmac
 import itertools
 import os
 import random as _random
 
 from symx import core, loader, shims
-from symx.core import (SI, SB, SBytes, check, s_and, s_or, s_not, s_ite, s_implies, norm, assume, bytes_env, Out, wrap, wrapb, lift,
-                       conc_value)
+from symx.core import SI, SB, SBytes, check, s_and, s_or, s_not, s_ite, s_implies, norm, assume, bytes_env, Out, wrap, wrapb, lift
 from vlib.run import Ob, sym_run, merge_runs, conc_run
 
 PROPERTY = "C15"
+
+
+def _untraced(fn):
+    """the runner profiles the first path of every exploration (to list the /repo functions that ran).  Lowering and solving inside
+    check() / assume() call no /repo function but make ~10^6 engine-internal calls; with the profile hook on, each of them costs a
+    Python-level callback.  The hook is suspended for the duration of the call and restored afterwards (evidence unaffected)."""
+    import functools
+    import sys as _sys
+
+    @functools.wraps(fn)
+    def w(*a, **k):
+        prof = _sys.getprofile()
+        if prof is None:
+            return fn(*a, **k)
+        _sys.setprofile(None)
+        try:
+            return fn(*a, **k)
+        finally:
+            _sys.setprofile(prof)
+    return w
+
+
+check = _untraced(check)
+assume = _untraced(assume)
 
 META = {
     "bounds": {
@@ -37,14 +59,15 @@ META = {
             "tables": "all a, b in [1,255] (both symbolic, one query per quarter of the a range); exp/log2 inverse for all a in [1,255], i in [0,254]",
             "lemma": "every constant L in 0..254 x every byte y",
             "split/recover": "secrets of 16 bytes: (k,n) in {(1,1),(2,2),(2,3),(3,3),(3,5)}; 32 bytes: {(1,1),(2,3),(3,5)}; every secret byte and "
-                             "every random byte symbolic (all lanes at once); every subset of >= k of the n shares",
+                             "every random byte symbolic (all lanes at once); every subset of >= k of the n shares (6 sampled subsets for the "
+                             "32-byte 3-of-5 case)",
             "refusal": "0..5 shares; id, exponent, group threshold / count, member index / threshold and value of every share symbolic "
                        "over their whole field range; group indices symbolic for up to two shares (others fixed by the shape); share "
                        "lengths 128/256 (also mixed)",
             "rs1024": "one step from every 30-bit state; left fold and affinity for fully symbolic prefixes of 0..2 symbols; per word "
                       "position of 20- and 33-word shares: syndrome map of a single symbolic error on the real function and rejection of "
-                      "every single-word substitution by the real rs1024_verify_checksum; 2- and 3-word errors: 24 sampled position "
-                      "pairs and 24 sampled position triples per share length, all error symbols symbolic",
+                      "every single-word substitution by the real rs1024_verify_checksum; 2- and 3-word errors: 16 sampled position "
+                      "pairs and 16 sampled position triples per share length, all error symbols symbolic",
             "codec": "Share.mnemonic / Share.parse for 128- and 256-bit shares with every header field and the value symbolic; every "
                      "sequence of 20 / 33 list words (full words, four-letter prefixes, alternating) accepted exactly when checksum, "
                      "padding and threshold <= count hold, and re-encoded identically; one unknown word at positions 0, 4, last",
@@ -184,6 +207,7 @@ def spec_lagrange_coeffs(x, xs):
     return out
 
 
+@_untraced
 def spec_interpolate(x, points):
     """points: [(x_i, bytes-like)]; value at x of the polynomial of degree < len(points) through them, byte lane by byte lane"""
     xs = [p[0] for p in points]
@@ -198,6 +222,7 @@ def spec_interpolate(x, points):
     return out
 
 
+@_untraced
 def spec_split(secret, k, n, rnd, hmac_fn):
     """SLIP39 SplitSecret for 2 <= k <= n: rnd = the random bytes in the order the library draws them (len(secret)-4 for the
     digest share, then len(secret) per random share); returns ([(index, byte list)], digest share)"""
@@ -241,6 +266,7 @@ def spec_checksum(data):
     return [(pm >> 10 * (2 - i)) & 1023 for i in range(3)]
 
 
+@_untraced
 def spec_pack(f, value, nbits):
     """SLIP39 share layout (the library's reading: 15-bit id, 5-bit exponent): word indices without the checksum"""
     pad = 10 - nbits % 10
@@ -303,6 +329,7 @@ def _bit_test(c):
     return c != 0
 
 
+@_untraced
 def sx_ite(c, a, b):
     """conditional expression without a fork (the rewritten `a if c else b` of rs1024_polymod / interpolate)"""
     if isinstance(c, SI):
@@ -417,6 +444,18 @@ def _repo():
     return os.environ.get("VERIF_REPO", "/repo")
 
 
+def _with_mods(fn):
+    """load / patch / self-check the modules before the (profiled) exploration starts"""
+    import functools
+
+    @functools.wraps(fn)
+    def w(*a, **k):
+        mods()
+        loader.native("shamir")
+        return fn(*a, **k)
+    return w
+
+
 # =============================================================================================== O1 GF(256) tables
 
 def _tables_mul_path(lo, hi):
@@ -445,6 +484,7 @@ def _tables_inverse_path():
     return "ok"
 
 
+@_with_mods
 def ob_tables_mul(lo, hi):
     nat = loader.native("shamir").ShareSet
     r = sym_run(lambda: _tables_mul_path(lo, hi), expect_classes=["ok"], timeout_ms=200000,
@@ -454,6 +494,7 @@ def ob_tables_mul(lo, hi):
     return r
 
 
+@_with_mods
 def ob_tables_inverse():
     r = sym_run(_tables_inverse_path, expect_classes=["ok"], timeout_ms=100000)
     r["sample"] = {"a": "symbolic in [1,255]", "i": "symbolic in [0,254]"}
@@ -491,6 +532,7 @@ def _lemma_path(Ls):
     return "ok"
 
 
+@_with_mods
 def ob_lemma(lo, hi):
     r = sym_run(lambda: _lemma_path(range(lo, hi)), expect_classes=["ok"], timeout_ms=60000)
     r["sample"] = {"y": "symbolic byte", "L": f"{lo}..{hi - 1}"}
@@ -511,6 +553,7 @@ def _rand_env(prefix="r"):
     return drawn
 
 
+@_untraced
 def _bytes_all_eq(a, b):
     if len(a) != len(b):
         return False
@@ -595,6 +638,7 @@ def _o2_path(nb, k, n, subsets):
     return "ok"
 
 
+@_with_mods
 def ob_split_recover(nb, k, n, limit=None):
     rng = _random.Random(1000 * k + n)
     subsets = _subsets(n, k, limit, rng) if k >= 2 else []
@@ -649,6 +693,7 @@ def replay_split_recover(w):
 FIELDS = (("id", 0, (1 << 15) - 1), ("exponent", 0, 31), ("gi", 0, 15), ("gt", 1, 16), ("gc", 1, 16), ("mi", 0, 15), ("mt", 1, 16))
 
 
+@_untraced
 def spec_consistent(shares):
     """what a set of shares must satisfy before anything may be returned (structural part of SLIP39 RecoverSecret).
     shares: dicts of the header fields + 'bits' (proxies or ints).  Returns bool / SB."""
@@ -732,6 +777,7 @@ def _o3_path(shape):
     return "returned"
 
 
+@_with_mods
 def ob_refusal(shape):
     exp = ["returned"] if len(shape) and len({b for _, b in shape}) == 1 else ["refused:ValueError" if shape else "refused:IndexError"]
     r = sym_run(lambda: _o3_path(shape), expect_classes=exp, timeout_ms=60000, max_violations=24, max_paths=60000)
@@ -832,6 +878,7 @@ def _o5_path(nb, lp, exps):
     return "ok"
 
 
+@_with_mods
 def ob_feistel(nb, lps, exps):
     runs = [sym_run(lambda: _o5_path(nb, lp, exps), expect_classes=["ok"], timeout_ms=120000) for lp in lps]
     m = merge_runs(runs)
@@ -938,6 +985,7 @@ def install_handles(size=1024):
     return hs
 
 
+@_untraced
 def fold_polymod(values):
     """rs1024_polymod(values), compositionally: Z = polymod(values[:-3] + [0,0,0]) is an uninterpreted 30-bit function of the
     symbols values[:-3]; the last three symbols enter linearly: polymod(values) = Z ^ pack(values[-3:]) (lemmas O4-rs-step /
@@ -992,6 +1040,7 @@ def _rs_step_path():
     return Out("ok", a)
 
 
+@_with_mods
 def ob_rs_step():
     r = sym_run(_rs_step_path, expect_classes=["ok"], timeout_ms=120000,
                 gen_env=lambda rng: {"S1": rng.randrange(1 << 30), "S2": rng.randrange(1 << 30), "v1": rng.randrange(1024), "v2": rng.randrange(1024),
@@ -1021,6 +1070,7 @@ def _rs_fold_path(k):
     return Out("ok", whole)
 
 
+@_with_mods
 def ob_rs_fold(maxk):
     nat = loader.native("shamir")
     runs = []
@@ -1064,19 +1114,28 @@ def replay_rs(w):
     raise KeyError(k)
 
 
+def _base_codeword(nwords):
+    """a valid share word sequence (concrete): zero data words and their checksum from the real rs1024_create_checksum"""
+    sh, S = mods()
+    zeros = [0] * (nwords - 3)
+    return zeros + [int(x) for x in sh.rs1024_create_checksum(CS, list(zeros))]
+
+
 def _rs_cols(nwords, p):
     """columns of the syndrome map of word position p of an nwords-word share: D_p(1 << i), computed by concrete runs of the
-    (current) rs1024_polymod: D_p(e) = polymod(shamir + zeros with e at p) ^ polymod(shamir + zeros)"""
+    (current) rs1024_polymod: D_p(e) = polymod(shamir + codeword with e xor-ed into word p) ^ polymod(shamir + codeword)"""
     real = _STATE["real_polymod"]
-    base = real(list(CS) + [0] * nwords)
+    cw = _base_codeword(nwords)
+    base = real(list(CS) + cw)
     cols = []
     for i in range(10):
-        v = [0] * nwords
-        v[p] = 1 << i
+        v = list(cw)
+        v[p] ^= 1 << i
         cols.append(real(list(CS) + v) ^ base)
     return cols
 
 
+@_untraced
 def _mat_apply(cols, e):
     """XOR of the columns selected by the bits of e, written output bit by output bit with shifts and xors only"""
     nbits = max(c.bit_length() for c in cols) if cols else 0
@@ -1096,25 +1155,23 @@ def _rs_positions_path(nwords, positions):
     use_polymod("real")
     real = _STATE["real_polymod"]
     e = SI.var("e", 0, 1023)
-    zeros = [0] * (nwords - 3)
-    codeword = zeros + sh.rs1024_create_checksum(CS, list(zeros))     # a valid share word sequence (concrete)
+    codeword = _base_codeword(nwords)
     check(bool(sh.rs1024_verify_checksum(CS, list(codeword))), "create_checksum / verify_checksum disagree on the all-zero share")
-    base = real(list(CS) + [0] * nwords)
+    base = real(list(CS) + codeword)
     for p in positions:
         wit = lambda env, p=p: {"kind": "pos", "nwords": nwords, "positions": [p], "errors": [env["e"]]}  # noqa
-        v = [0] * nwords
-        v[p] = e
-        d = real(list(CS) + v) ^ base
-        check(d == _mat_apply(_rs_cols(nwords, p), e), f"position {p}: the syndrome of a single-word error is not the XOR of its bit columns",
-              witness=wit, fresh=True, timeout_ms=120000)
         cw = list(codeword)
         cw[p] = cw[p] ^ e
-        ok = sh.rs1024_verify_checksum(CS, cw)
+        ok = sh.rs1024_verify_checksum(CS, list(cw))      # the real verification of the corrupted share (one symbolic word)
         check(s_implies(e != 0, s_not(ok)), f"a substitution of word {p} of a {nwords}-word share passes the checksum", witness=wit, fresh=True,
               timeout_ms=120000)
+        d = real(list(CS) + cw) ^ base                     # same (hash-consed) term as inside verify_checksum
+        check(d == _mat_apply(_rs_cols(nwords, p), e), f"position {p}: the syndrome of a single-word error is not the XOR of its bit columns",
+              witness=wit, fresh=True, timeout_ms=120000)
     return "ok"
 
 
+@_with_mods
 def ob_rs_positions(nwords, lo, hi):
     r = sym_run(lambda: _rs_positions_path(nwords, range(lo, hi)), expect_classes=["ok"], timeout_ms=120000)
     r["sample"] = {"words": nwords, "positions": f"{lo}..{hi - 1}", "error": "symbolic 10-bit difference at one position"}
@@ -1173,6 +1230,7 @@ def _rs_detect_path(nwords, ps, cols):
     return "ok"
 
 
+@_with_mods
 def ob_rs_detect(nwords, weight, chunk, nchunks, sample=None):
     mods()
     allsets = list(itertools.combinations(range(nwords), weight))
@@ -1260,6 +1318,7 @@ def _encode_path(nbits, pattern):
     return "ok"
 
 
+@_with_mods
 def ob_encode(nbits, patterns):
     runs = [sym_run(lambda: _encode_path(nbits, pt), expect_classes=["ok", "share-invalid"], timeout_ms=60000) for pt in patterns]
     m = merge_runs(runs)
@@ -1366,6 +1425,7 @@ def _unknown_word_path(nwords, pos):
     return "accepted"
 
 
+@_with_mods
 def ob_decode(nwords, patterns):
     runs = [sym_run(lambda: _decode_path(nwords, pt), expect_classes=["accepted", "refused:ValueError"], timeout_ms=60000) for pt in patterns]
     runs += [sym_run(lambda: _unknown_word_path(nwords, pos), expect_classes=["KeyError"]) for pos in (0, 4, nwords - 1)]
@@ -1492,6 +1552,7 @@ def _wiring_path(nb, k, n, subsets, lp, e):
     return "ok"
 
 
+@_with_mods
 def ob_wiring(nb, k, n, lp, e, limit=None):
     rng = _random.Random(77 * k + n)
     subsets = _subsets(n, k, limit, rng) if k >= 2 else []
@@ -1564,6 +1625,7 @@ def _wordlist_facts():
                             if not problems else "; ".join(problems[:5]))
 
 
+@_with_mods
 def ob_wordlist():
     mods()
     return conc_run(_wordlist_facts, "SLIP39 word list: 1024 words, unique four-letter prefixes, WordList prefix lookup agrees with full-word "
@@ -1583,9 +1645,10 @@ def obligations(tier):
     for lo in range(0, 255, 32):
         obs.append(Ob("O2-lemma", ob_lemma, {"lo": lo, "hi": min(lo + 32, 255)}, replay="tables"))
     if q:
-        kn = [(16, 1, 1), (16, 2, 2), (16, 2, 3), (16, 3, 3), (16, 3, 5), (32, 1, 1), (32, 2, 3), (32, 3, 5)]
-        for nb, k, n in kn:
-            obs.append(Ob("O2-split-recover", ob_split_recover, {"nb": nb, "k": k, "n": n}, replay="split_recover"))
+        kn = [(16, 1, 1, None), (16, 2, 2, None), (16, 2, 3, None), (16, 3, 3, None), (16, 3, 5, None), (32, 1, 1, None), (32, 2, 3, None),
+              (32, 3, 5, 6)]
+        for nb, k, n, lim in kn:
+            obs.append(Ob("O2-split-recover", ob_split_recover, {"nb": nb, "k": k, "n": n, "limit": lim}, replay="split_recover"))
     else:
         for nb in (16, 32):
             for n in range(1, 6):
@@ -1616,7 +1679,7 @@ def obligations(tier):
         for nwords in (20, 33):
             for weight in (2, 3):
                 for ch in range(2):
-                    obs.append(Ob("O4-rs-detect", ob_rs_detect, {"nwords": nwords, "weight": weight, "chunk": ch, "nchunks": 2, "sample": 24},
+                    obs.append(Ob("O4-rs-detect", ob_rs_detect, {"nwords": nwords, "weight": weight, "chunk": ch, "nchunks": 2, "sample": 16},
                                   replay="rs_detect"))
     else:
         for nwords, nch in ((20, 24), (33, 96)):
